@@ -286,13 +286,8 @@ def q_c08_get_fingerprint(bodies):
                 return "(C_Some %s)" % items[pos]
             m_next.wants_env = True
 
-            def m_branch(ex, v):
-                x = v[0]
-                if x.startswith("(C_Ok "):
-                    return "(C_Continue %s)" % split_sexpr_args(x)[0]
-                if x.startswith("(C_Err "):
-                    return "(C_Break %s)" % x
-                raise ValueError("branch of %s" % x[:60])
+            from stdmodels import std_models as _std
+            m_branch = _std()[r" as Try>::branch$"]
 
             def m_xor(ex, v, env):
                 env["__xors"] = env.get("__xors", ()) + ((_deep(ex, env, v[0]), v[1]),)
